@@ -373,6 +373,7 @@ class CuckooFilter:
         # and move things around to the other index, if possible, until we
         # either move everything around or hit the maximum number of swaps
         idx = random.choice([idx_1, idx_2])
+        undo = []  # (bucket, slot) of every swap, so that a failed insert does not lose a stored fingerprint
 
         for _ in range(self.max_swaps):
             # select one element to be swapped out...
@@ -380,6 +381,7 @@ class CuckooFilter:
 
             swb = self.buckets[idx][swap_elm]
             fingerprint, self.buckets[idx][swap_elm] = swb, fingerprint
+            undo.append((idx, swap_elm))
 
             # now find another place to put this fingerprint
             index_1, index_2 = self._indicies_from_fingerprint(fingerprint)
@@ -390,7 +392,9 @@ class CuckooFilter:
                 self._inserted_elements += 1
                 return None
 
-        # if we got here we have an error... we might need to know what is left
+        # if we got here we have an error: swap everything back, what is left is the new fingerprint
+        for bucket, slot in reversed(undo):
+            fingerprint, self.buckets[bucket][slot] = self.buckets[bucket][slot], fingerprint
         return fingerprint
 
     def _load(self, file: Union[Path, str, IOBase, mmap, bytes]) -> None:
@@ -457,12 +461,15 @@ class CuckooFilter:
     def _expand_logic(self, extra_fingerprint):
         """the logic to acutally expand the cuckoo filter"""
         # get all the fingerprints
+        before = (self._cuckoo_capacity, self._buckets, self._inserted_elements)
         fingerprints = self._setup_expand(extra_fingerprint)
 
         for finger in fingerprints:
             idx_1, idx_2 = self._indicies_from_fingerprint(finger)
             res = self._insert_fingerprint(finger, idx_1, idx_2)
             if res is not None:  # again, this *shouldn't* happen
+                # keep the table as it was: a failed expansion must not lose fingerprints
+                self._cuckoo_capacity, self._buckets, self._inserted_elements = before
                 msg = "The CuckooFilter failed to expand"
                 raise CuckooFilterFullError(msg)
 
